@@ -713,3 +713,29 @@ M("C18", "compile-stamp-member-signed", PE, FILE_STAMP, "    LONG  TimeDateStamp
 M("C18", "section-raw-size-member-signed", PE, SEC_SIZES, "    int32   SizeOfRawData;\n    ULONG   PointerToRawData;\n", "C18.R1")
 M("C18", "section-count-member-signed", PE, "    WORD  NumberOfSections;\n", "    SHORT NumberOfSections;\n", "C18.R1")
 M("C18", "export-rva-member-signed", PE, DATA_DIR, "    INT     VirtualAddress;\n    ULONG   Size;\n", "C18.R1")
+
+# ----------------------------------------------------------------------------------------------- R7: the reported bytes are the bytes read
+# (wave 8) NUL padding only ever follows the PE magic (left-aligned in the 4-byte signature field) and the stage append;
+# the only operation that may shorten those values is the removal of trailing NUL bytes, and nothing may shorten the prepend
+APPEND_READ = "    append = fh.read(1024) or None\n"
+APPEND_TRIM = "    if append is not None:\n        append = append.rstrip(b\"\\x00\")\n"
+MAGIC_PE_READ = "    magic_pe = fh.read(4).rstrip(b\"\\x00\")\n"
+T("C18", "twin-padding-constant-and-helper", PE, "", "", edits=[
+    (PE, "def find_mz_offset(", "PADDING = b\"\\x00\"\n\n\ndef _without_padding(data):\n    return data.rstrip(PADDING)\n\n\ndef find_mz_offset("),
+    (PE, MAGIC_PE_READ, "    magic_pe = _without_padding(fh.read(4))\n"),
+    (PE, APPEND_TRIM, "    if append is not None:\n        append = _without_padding(append)\n")])
+T("C18", "twin-append-trim-conditional-expression", PE, APPEND_TRIM, "    append = append.rstrip(b\"\\0\") if append else None\n")
+T("C18", "twin-append-trim-and-form", PE, "", "", edits=[(PE, APPEND_READ, "    append = fh.read(1024)\n"), (PE, APPEND_TRIM, "    append = (append and append.rstrip(b\"\\x00\")) or None\n")])
+T("C18", "twin-append-trim-on-the-read", PE, "", "", edits=[(PE, APPEND_READ, "    data = fh.read(1024)\n    append = data.rstrip(b\"\\x00\\x00\") if data else None\n"), (PE, APPEND_TRIM, "")])
+T("C18", "twin-append-trim-loop-not-decided", PE, APPEND_TRIM, "    while append is not None and append.endswith(b\"\\x00\"):\n        append = append[:-1]\n")
+T("C18", "twin-magic-pe-bytes-copy", PE, MAGIC_PE_READ, "    raw = bytes(fh.read(4))\n    magic_pe = raw[:].rstrip(b\"\\x00\")\n")
+T("C18", "twin-magic-pe-trim-by-index-loop-not-decided", PE, MAGIC_PE_READ, "    raw = fh.read(4)\n    end = len(raw)\n    while end and raw[end - 1] == 0:\n        end -= 1\n    magic_pe = raw[:end]\n")
+M("C18", "magic-pe-leading-nuls-stripped", PE, MAGIC_PE_READ, "    magic_pe = fh.read(4).lstrip(b\"\\x00\").rstrip(b\"\\x00\")\n", "C18.R7")
+M("C18", "magic-pe-whitespace-trimmed", PE, MAGIC_PE_READ, "    magic_pe = fh.read(4).rstrip(b\"\\x00\").rstrip()\n", "C18.R7")
+M("C18", "magic-pe-trim-set-includes-data-bytes", PE, MAGIC_PE_READ, "    magic_pe = fh.read(4).rstrip(b\"\\x00 \")\n", "C18.R7")
+M("C18", "append-strip-through-temporary", PE, APPEND_TRIM, "    if append is not None:\n        trimmed = append.strip(b\"\\x00\")\n        append = trimmed\n", "C18.R7")
+M("C18", "append-trim-in-conditional-expression-strips-both-ends", PE, APPEND_TRIM, "    append = append.strip(b\"\\x00\") if append else None\n", "C18.R7")
+M("C18", "append-first-byte-dropped", PE, APPEND_READ, "    append = fh.read(1025)[1:] or None\n", "C18.R7")
+M("C18", "append-nop-sled-trimmed", PE, APPEND_TRIM, "    if append is not None:\n        append = append.rstrip(b\"\\x00\\x90\")\n", "C18.R7")
+M("C18", "prepend-trailing-nuls-trimmed", PE, PREPEND, PREPEND.replace("fh.read(mz_offset)", "fh.read(mz_offset).rstrip(b\"\\x00\")"), "C18.R7")
+M("C18", "prepend-stripped-on-return", PE, "    return (prepend, append)\n\n\ndef find_architecture", "    return (prepend and prepend.strip(b\"\\x00\"), append)\n\n\ndef find_architecture", "C18.R7")
